@@ -129,8 +129,9 @@ class CollectionStore(object):
             del self._documents[key]
 
     def discard(self, key):
+        """Removes the document stored under key if any; tells whether there was one."""
         with self._rwlock.writer():
-            self._documents.pop(key, None)
+            return self._documents.pop(key, None) is not None
 
     def __len__(self):
         self._remove_expired_documents()
